@@ -10,6 +10,24 @@ import Sucds.Proofs.DacsAccess
 import Sucds.Proofs.DacsOptWidths
 import Sucds.Props.C10
 import Sucds.Props.C18
+/-! # The functions generated from `src/int_vectors/dacs_opt.rs` agree with the model `DacO`
+
+`Sucds.GenFn.DacsOpt.{from_slice, build_from_slice, build, default, access, len, num_vals, is_empty, num_levels, widths,
+iter}` and `Sucds.GenFn.dacs_opt_Iter.{new, next, size_hint}` (generated) versus `Sucds.DacO.{fromSlice, build, default,
+access, len, numLevels, widths}` (hand-written model, `Sucds/Model/Dacs.lean`) and the index-iterator model `IndexIter`.
+`compute_opt_widths` is `GenDacsWidths.compute_opt_widths_eq'`.
+
+* `dacs_opt_build_eq`: `build` = model for every valid split (non-empty, positive widths, sum ≤ 64, covering all values)
+  — the only way `from_slice` calls this private function; both code paths (single-level shortcut, general loop).
+* `dacs_opt_from_slice_eq`: `from_slice` = model, including `Err` for `max_levels ∉ 1..=64`.
+* `dacs_opt_access_eq`: `access` = `DacO.access` on every structure satisfying `DacOInv` (implied by the invariant
+  `DacO.Rep` of the C10 proofs), every `usize` index.
+* `dacs_opt_c10`, `dacs_opt_c18`: the right-hand sides of `Props/C10.lean`, of the `DacsOpt` clause of `Props/C17.lean`
+  and of `Props/C18.lean`, stated for the generated functions.
+
+Outside the hypotheses of `dacs_opt_build_eq` the private `build` and the model differ, as expected (see the end of the
+file): the code asserts that the widths cover the value and pushes the unmasked value in the single-level shortcut; the
+model masks every chunk. -/
 set_option linter.unusedSimpArgs false
 set_option linter.unusedVariables false
 namespace Sucds.GenEq
@@ -109,7 +127,7 @@ theorem daco_walk_eq (c : Cfg) (d : DacO) (h : DacOInv c d) :
         cases o with
         | none => rfl
         | some v =>
-          rw [bok, bok, unwrap_some, bok, bok]
+          rw [bok, bok, db_unwrap_some, bok, bok]
           cases hs : cshl c v width with
           | error e => rfl
           | ok sv =>
@@ -133,7 +151,7 @@ theorem daco_walk_eq (c : Cfg) (d : DacO) (h : DacOInv c d) :
                   cases bit with
                   | false => rfl
                   | true =>
-                    simp only [bok, unwrap_some, Bool.not_true, Bool.false_eq_true, if_false]
+                    simp only [bok, db_unwrap_some, Bool.not_true, Bool.false_eq_true, if_false]
                     rw [rs_rank1_eq c (R9.new c bv) hinv rfl pos hpos, unwrapO_bind]
                     have hr : (R9.new c bv).rank1 c pos
                         = .ok (if pos ≤ bv.len then some (Spec.cnt bv.bitAt pos) else none) :=
@@ -141,7 +159,7 @@ theorem daco_walk_eq (c : Cfg) (d : DacO) (h : DacOInv c d) :
                     rw [hr]
                     by_cases hp : pos ≤ bv.len
                     · rw [if_pos hp]
-                      simp only [bok, unwrap_some]
+                      simp only [bok, db_unwrap_some]
                       rw [cadd_ok c (by omega : width + lv.width < 2^64), bok, bok]
                       have hc : Spec.cnt bv.bitAt pos ≤ pos := Spec.cnt_le _ _
                       exact ih (j + 1) _ _ _ (by omega) (by omega) (by omega)
@@ -202,7 +220,7 @@ theorem daco_iter_next_eq (c : Cfg) (it : GenFn.dacs_opt_Iter) (xs : List Nat) (
   rw [dacs_opt_len_eq, hlen, bok]
   by_cases hp : pos < xs.length
   · rw [if_pos hp, if_pos hp, dacs_opt_access_eq c d hI pos (by omega), hacc pos, List.getElem?_eq_getElem hp, bok,
-      unwrap_some, bok, cadd_ok c (by omega), bok, bok]
+      db_unwrap_some, bok, cadd_ok c (by omega), bok, bok]
     simp only [C17.okv, hacc pos, List.getElem?_eq_getElem hp]
   · rw [if_neg hp, if_neg hp, bok]
 
@@ -489,7 +507,7 @@ theorem daco_vals_loop (c : Cfg) (widths : Array Nat) (hn2 : 2 ≤ widths.size)
     have hbody : dacoValBody c widths x (data, flags) = DacO.pushVal data flags 0 (dacSplit widths.toList x) := by
       unfold dacoValBody
       simp only []
-      rw [unwrap_some, bok]
+      rw [db_unwrap_some, bok]
       unfold RS.enumerate
       rw [List.range_eq_range']
       cases hws : widths.toList with
@@ -833,5 +851,16 @@ theorem dacs_opt_c18 (c : Cfg) (vals : Array Nat) (ml : Option Nat) (hne : vals.
   · rw [dacs_opt_widths_eq, hw]; exact hvalid
   · intro ws' h'
     rw [dacs_opt_widths_eq, hw]; exact hmin ws' h'
+
+/-! ### outside the hypotheses of `dacs_opt_build_eq` (expected, recorded for completeness)
+
+    `build` is private and `from_slice` only passes it the split returned by `compute_opt_widths`, whose widths sum to
+    the bit length of the maximum.  Called directly with widths that do not cover a value, the code panics (the
+    single-level shortcut pushes the unmasked value, `push_int(..).unwrap()`; the general loop ends with
+    `assert_eq!(x, 0)`), while the model masks every chunk and succeeds:
+    `#eval GenFn.DacsOpt.build ⟨true,false⟩ #[70000] #[8, 8]` is `error assertFail`, `DacO.build ⟨true,false⟩ [70000] [8, 8]`
+    is `ok`.  With a width of 64 in a multi-level split (sum > 64) `1 << 64` overflows in a checked build. -/
+theorem build_uncovered_value_gen : GenFn.DacsOpt.build ⟨true, false⟩ #[300] #[8] = .error .unwrapNone := rfl
+theorem build_uncovered_value_model : (DacO.build ⟨true, false⟩ [300] [8]).toBool = true := rfl
 
 end Sucds.GenEq
